@@ -188,7 +188,10 @@ func prop(t *rapid.T) {
 		_, otherBase := encode(pBody, ctFormat)
 		ct = rapid.SampledFrom(ctVariants(ctFormat, otherBase)).Draw(t, "ct")
 	case "unknown":
-		ct = rapid.SampledFrom([]string{"text/plain", "application/octet-stream", "application/yaml", "text/html; charset=utf-8", "json", "xml"}).Draw(t, "ct")
+		// other media types - among them registered types whose name merely starts like a supported one
+		ct = rapid.SampledFrom([]string{"text/plain", "application/octet-stream", "application/yaml", "text/html; charset=utf-8", "json", "xml",
+			"application/json-seq", "application/jsonlines", "application/json5", "application/xml-dtd", "text/xml-external-parsed-entity",
+			"application/x-www-form-urlencoded-x", "multipart/form-data-set; boundary=x", "application/jsonp; charset=utf-8", "text/plain; profile=a/json", "text/plain; alt=text/xml"}).Draw(t, "ct")
 	}
 	garbage := rapid.IntRange(0, 5).Draw(t, "arbitraryBody") == 0
 	if garbage {
